@@ -6,10 +6,25 @@ V = os.path.dirname(os.path.dirname(os.path.abspath(__file__)))
 props = [json.loads(l)["id"] for l in open(os.path.join(V, "properties.jsonl"))]
 
 ENGINE = "mcx"
+EXPL = "stateless deviation-bounded exploration of the real election code in synctest bubbles (virtual time) against a gated reference store; oracle on the full observation trace of every execution"
+NOTE = "Bounded: 2-4 instances, <=2 groups, deviation bound d per scenario as reported in the evidence (quick d=1..2, thorough d=2..3); reference store semantics validated against the embedded nats-server by C14; goroutine interleavings between two store/timer seams only in fine-mode windows."
 CHECKS = {
- "C02": dict(cat="exploration", tech="stateless deviation-bounded exploration of the real election code in synctest bubbles against a gated reference store",
-   text="Every execution with <= d deviations (store latencies up to H/2-1ms, split application/answer, watch delay/duplication, jitter extremes, start/stop calls moved to every choice point) of fault-free election scenarios with 2-3 instances is run on the real code; at every leadership-flag change, callback and quiescent point: at most one claimant, and each claim is backed by the live record (id and token).",
-   note="Bounded: <=3 instances, d as reported in evidence; reference store semantics validated against the embedded server by C14; interleavings between two store/timer seams only in fine-mode windows.", ref="§5 C02"),
+ "C01": dict(cat="exploration", tech=EXPL, ref="DESIGN §5 C01", note=NOTE,
+   text="Every applied mutation in the complete, caller-tagged store log of every explored execution (fault-free, crash, partition, error/lost-ack, preemption, two-group and stop/restart scenarios) is classified against the version it replaced: create over no live record, owner refresh with identical id/token, revision-checked takeover by a strictly higher-priority takeover-enabled instance, or owner's delete inside its own StopWithContext; anything else, or any op on another group's key, is a violation."),
+ "C02": dict(cat="exploration", tech=EXPL, ref="DESIGN §5 C02", note=NOTE,
+   text="Every execution with <= d deviations (store latencies up to H/2-1ms, split application/answer, watch delay/duplication, jitter extremes, start/stop/restart calls moved to every choice point) of the fault-free scenarios is run on the real code; at every leadership-flag change (sampled inside the is-leader gauge callback), callback and quiescent point: at most one claimant per group, and each claim is backed by the live record (id and current token)."),
+ "C05": dict(cat="exploration", tech=EXPL, ref="DESIGN §5 C05", note=NOTE,
+   text="Over every record version written in every explored execution (multi-term scenarios: health demotion and re-election, restart, failover, preemption, partitions): acquisition writes carry a token never seen before in any version; refreshes republish the replaced version's id and token; the token given to OnPromote is the token of an acquisition write of that instance; a leader's Token()/Status().Token equal the token in its own live record at every quiescent point."),
+ "C07": dict(cat="exploration", tech=EXPL, ref="DESIGN §5 C07", note=NOTE,
+   text="In every explored execution of the fault-free scenarios (latencies < H/2, watch delay/duplication/late delivery, all jitter extremes, other instances starting/stopping/losing) an instance that becomes leader has no true->false edge, no OnDemote and no token change until its own stop call, and the record never lapses or changes owner under it."),
+ "C08": dict(cat="exploration", tech=EXPL, ref="DESIGN §5 C08", note=NOTE,
+   text="Callback log of every explored execution (all scenario families incl. partitions, errors, lost acks, health demotion, preemption, stops): per instance strict P D P D ... alternation starting with P, P carries a token that instance wrote, and at every quiescent point outside a stop call IsLeader() <=> #P-#D==1."),
+ "C09": dict(cat="exploration", tech=EXPL, ref="DESIGN §5 C09", note=NOTE,
+   text="The stop call (Stop and five StopWithContext option combinations, plus stop-then-start) is placed by the explorer at every choice point of the base runs, including between issue/application/answer of each store op; after it returns nil: never leader again, no OnPromote, no store op issued, State STOPPED, duration within 5s+callback / the time-out, record not a live record of the caller when DeleteKey was set and it led, no stuck or leftover library goroutine, no panic (worker death), Status() never blocks."),
+ "C18": dict(cat="exploration", tech=EXPL, ref="DESIGN §5 C18", note=NOTE,
+   text="Status() of every instance at every quiescent point of every explored execution: IsLeader <=> State==LEADER, leader's LeaderID/Token/Revision equal own id / term token / revision of its latest acknowledged write, documented states only, STOPPED after a returned stop, is-leader gauge equals IsLeader(), transition stream forms a chain."),
+ "C19": dict(cat="exploration", tech=EXPL, ref="DESIGN §5 C19", note=NOTE,
+   text="A promotion callback that blocks on its context records when it is cancelled; at every quiescent point of every explored execution (every cause of term end the scenarios reach): context done <=> the term has ended (instance not leader or token changed)."),
 }
 NA_DEFAULT = "check not built yet in this round (planned in DESIGN.md §9a); not claimed until it runs alarm-free"
 
